@@ -52,7 +52,7 @@ TOL9 = "1/1000000000"
 TOL6 = "1/1000000"
 ATYPES = [("P", 0.47, 72.0), ("Q", 0.41, 36.0), ("S", 0.34, 12.0)]
 BOND_LENGTHS = [0.2, 0.25, 0.3, 0.35, 0.47]
-FINDING_SHAPES = ("vsn-com-as-cog", "template-without-bonds-ignored")
+FINDING_SHAPES = ("vsn-com-as-cog", "template-without-bonds-ignored", "user-volume-two-templates-one-name")
 # fixed in /repo (see known_findings.txt `fixed:`), therefore always generated:
 #   unoptimised-first-template-crashes (be7ff96), user-volume-lost-other-hash (07473a8)
 
@@ -241,6 +241,18 @@ def gen_build_file(rng, spec):
         want_tmpl = 0.3 < roll < 0.75
         if len(same_name) > 1 and any(b[0] == "volume" and b[1] == kind["resname"] for b in blocks):
             want_vol = False      # one [ volumes ] line per residue name (it addresses every kind of that name)
+        if len(same_name) > 1 and not enabled("user-volume-two-templates-one-name"):
+            # BuildDirector.resnames_to_hash keeps ONE hash per residue name: with two [ template ] blocks of one
+            # name the [ volumes ] entry reaches only the last one (documented finding, gated): keep such a name
+            # to either one template or a volume
+            has_t = any(b[0] == "template" and kinds[b[1]]["resname"] == kind["resname"] for b in blocks)
+            has_v = any(b[0] == "volume" and b[1] == kind["resname"] for b in blocks)
+            if has_t and has_v:
+                want_tmpl = False
+            elif has_t and want_tmpl:
+                want_vol = False
+            elif has_t:
+                want_vol = False
         mine = []
         if want_vol:
             mine.append(["volume", kind["resname"], round(rng.uniform(0.2, 1.5), 3)])
@@ -606,6 +618,28 @@ def system_case(ctx, replay):
                                                    xs=[v3(template[c["name"]]) for c in cons],
                                                    got=v3(template[site]), tol=TOL6)))
     reqs += [r[3] for r in tmpl_reqs]
+    # a size that is not the user's is the size computed from the residue's OWN template
+    user_vol_names = {b[1] for b in (spec["build"] or []) if b[0] == "volume"}
+    sigma = {name: sig for name, sig, _ in ATYPES}
+    size_reqs = []
+    for ghash, k in per_template:
+        names_of_hash = {q["resname"] for q in flat if q["hash"] == ghash}
+        if ghash in bf_templates or names_of_hash & user_vol_names or ghash not in fin_volumes:
+            continue
+        template = fin_templates[ghash]
+        atype = {a["name"]: a["atype"] for a in kinds[k]["atoms"]}
+        if sorted(template) != sorted(atype):
+            continue
+        cog = np.average(np.array(list(template.values())), axis=0)
+        if len(template) > 1 and min(float(np.linalg.norm(vec - cog)) for vec in template.values()) < 1e-9:
+            # an atom ON the centre (e.g. a COG virtual site): compute_volume's threshold (1e-18) is below the
+            # rounding noise, the atom is pushed out by its radius along a noise direction -> not reproducible
+            ctx.tally(own_size_ill_conditioned=True)
+            continue
+        atoms = [dict(diff=v3(vec - cog), nrm=rat_str(float(np.linalg.norm(vec - cog))), rad=rat_str(sigma[atype[name]]))
+                 for name, vec in template.items()]
+        size_reqs.append((ghash, k, dict(op="volume", atoms=atoms)))
+    reqs += [r[2] for r in size_reqs]
     verdict_reqs = []
     if records is not None:
         for ghash, rec in zip(generated, records):
@@ -695,6 +729,23 @@ def system_case(ctx, replay):
                                        [float(common.rat_parse(x)) for x in req["params"]],
                                        [float(common.rat_parse(x)) for x in req["masses"]]), replay)
                 ctx.tally(vs_checked=req["vs_type"] + "/" + req["func"])
+        for ghash, k, req in size_reqs:
+            ans = answers[idx]["size"]
+            idx += 1
+            got = fin_volumes[ghash]
+            if ans["kind"] == "sqrt":
+                own = close(got * got, common.rat_parse(ans["q"]), 1e-6)
+                want = math.sqrt(float(common.rat_parse(ans["q"])))
+            elif ans["kind"] == "exact":
+                own = close(got, common.rat_parse(ans["r"]), 1e-6)
+                want = float(common.rat_parse(ans["r"]))
+            else:
+                own, want = True, None
+            if not own:
+                ctx.oracle_fail("size-not-from-own-template", "residue %s (template %s) has no user size; its size is %r but "
+                                "the size computed from its own template is %r" % (kinds[k]["resname"], ghash[:8], got, want),
+                                replay)
+            ctx.tally(own_size_checked=True)
         for ghash, success, req in verdict_reqs:
             ans = answers[idx]
             idx += 1
@@ -736,7 +787,10 @@ def system_case(ctx, replay):
                 continue      # one size per hash is demanded too: two residue names under one hash cannot both win
             if fin_volumes[attr] != user_vol[r["resname"]]:
                 shape = "user-volume-ignored"
-                if any(h != r["hash"] for h, _ in templ_names.get(r["resname"], [])):
+                hashes = {h for h, _ in templ_names.get(r["resname"], [])}
+                if len(hashes) >= 2:
+                    shape = "user-volume-two-templates-one-name"
+                elif any(h != r["hash"] for h in hashes):
                     shape = "user-volume-lost-other-hash"
                 ctx.oracle_fail(shape, "[ volumes ] gives %s the size %r but the residue (template %s) got %r; build file: %s"
                                 % (r["resname"], user_vol[r["resname"]], attr[:8], fin_volumes[attr], build_text(spec)), replay)
@@ -988,15 +1042,15 @@ def gen_replays(ctx):
     rng = ctx.rng
     out = []
     for entry in range(10):
-        for _ in range(ctx.budget(4, 30)):
+        for _ in range(ctx.budget(4, 60)):
             out.append(dict(stream="vs", entry=entry, seed=rng.randint(0, 10 ** 9)))
     for _ in range(ctx.budget(15, 150)):
         out.append(dict(stream="cog", seed=rng.randint(0, 10 ** 9)))
-    for _ in range(ctx.budget(40, 500)):
+    for _ in range(ctx.budget(40, 1200)):
         out.append(dict(stream="verdict", seed=rng.randint(0, 10 ** 9), stub=rng.random() < 0.6))
-    for _ in range(ctx.budget(30, 300)):
+    for _ in range(ctx.budget(30, 600)):
         out.append(dict(stream="volume", seed=rng.randint(0, 10 ** 9)))
-    for _ in range(ctx.budget(40, 700)):
+    for _ in range(ctx.budget(40, 1800)):
         out.append(dict(stream="system", seed=rng.randint(0, 10 ** 9)))
     probe = sorted(s for s in FINDING_SHAPES if enabled(s))
     for rep in out:
@@ -1031,6 +1085,8 @@ def run_cases(ctx, replays):
 
 
 def run(ctx):
+    import warnings
+    warnings.simplefilter("ignore", RuntimeWarning)      # numpy's nan warnings on degenerate geometries
     ctx.extra["rule"] = RULE
     ctx.extra["trusted"] = [
         "networkx weisfeiler_lehman_graph_hash (ORACLE: parameter h of the model) and is_isomorphic (harness-side isomorphism)",
